@@ -183,3 +183,93 @@ PROPS = {
                          "model: lean/CliUtils/Model/DepEdges.lean (edge builders of DependencyGraph on parsed annotations; annotation parsing itself is C15/C18)"],
     },
 }
+
+_KS_TRUSTED = ["model: lean/CliUtils/Model/{Json,Status}.lean (hand-written from pkg/kstatus/status/{status,generic,core,util}.go and the "
+               "apimachinery accessors NestedFieldNoCopy/NestedString/NestedInt64/NestedSlice/SetNestedSlice and FromUnstructured for the "
+               "4-string-field BasicCondition struct); predicates: lean/CliUtils/Spec/Status.lean",
+               "objects are JSON-shaped trees as produced by the apimachinery JSON decoder (nil/bool/int64/float64/string/slice/map); "
+               "Go-only value types (int, int32, json.Number) and a nil top-level map are outside the model"]
+
+_KS_ASSUME = ["messages are never compared (wording), only status, condition type/status/reason, error-or-not, panic-or-not",
+              "the wall clock enters through one boolean (creation timestamp within the 15 s schedule window); the generators only use "
+              "creation timestamps decades away from now, absent or unparsable, so the bit cannot flip during a run",
+              "Go int arithmetic is modelled on unbounded Int (overflow of spec.replicas - partition is not part of the property)"]
+
+PROPS["C07"] = {
+    "level_text": ("Machine-checked Lean 4 theorems over a model of status.Compute/Augment: for EVERY dispatch key (built-in or not) a deletion "
+                   "timestamp gives Terminating, else a generation mismatch gives InProgress, else the first true Reconciling/Stalled condition "
+                   "decides; kinds without rules follow their first Ready condition and are Current without any signal; Augment leaves every "
+                   "other condition untouched and in order and never changes the status computed afterwards. All quantified over all JSON trees "
+                   "(any kind, any condition list, unbounded integers). The model is tied to the code by running the real Compute/Augment on "
+                   "generated objects (every combination of deletionTimestamp x generation/observedGeneration x up to two Reconciling/Stalled/"
+                   "Ready conditions before or after the kind's own conditions, over all built-in kinds and custom kinds) and comparing every "
+                   "output; a unit test cannot quantify over all kinds and states."),
+    "level_note": ("Trusted: Lean kernel (+propext, Quot.sound, Classical.choice), the hand-written model, the Go harness and driver. "
+                   "The proof is about the model; the code is covered as far as the correspondence run explores (reported in evidence)."),
+    "technique": "Lean 4 proof (case analysis over accessor results, induction over condition lists) + differential correspondence against the real Go code",
+    "domains": ["status-c07", "augment"],
+    "rule": ("status-c07: base objects of all 16 built-in keys and 9 custom apiVersion/kind shapes x {no, empty, set deletionTimestamp} x 7 "
+             "generation/observedGeneration states x all sequences of <= 2 conditions from {Reconciling,Stalled,Ready}x{True,False,Unknown} x "
+             "{before, after the kind's conditions} (sampled by a bijection of the index space in quick, complete in thorough), plus random "
+             "sequences of 3-5 generic conditions, plus a tenth of the C08 grids; augment: random objects of all kinds with pre-existing "
+             "standard conditions in assorted shapes (repeats, extra keys, wrong types), Augment then Compute again, whole object compared. "
+             "Non-trivial: C07 constrains the status (status-c07) / Augment had a condition to write and succeeded (augment)."),
+    "exhaustive_quick": False,
+    "exhaustive_thorough": True,
+    "explanation": ("Theorems: generic_terminating / generic_generation / generic_first_condition for every key; ready_fallback; "
+                    "no_signal_current; demand_met (the executable C07 predicate holds of the model for every input); "
+                    "augment_preserves_others; augment_status_stable; augment_error_unchanged. Tie: real Compute and Augment run on the same "
+                    "inputs, every output compared; the C07 predicate is evaluated on the implementation's outputs."),
+    "assumptions": _KS_ASSUME + ["Augment's timestamps are compared as '<now>' when they fall between the harness's clock readings around the call"],
+    "trusted_base": _KS_TRUSTED,
+}
+
+PROPS["C08"] = {
+    "level_text": ("Machine-checked Lean 4 theorems: for each built-in kind, with no generic signal, the model of the kind's rule returns "
+                   "Current exactly when an independently written rollout predicate (from the API semantics, over unbounded Int fields) holds, "
+                   "Failed exactly on explicit failure evidence, InProgress otherwise; never Current while a replica count lags; and (generation "
+                   "fields present, rolling-update strategy, partition >= 0) Current implies that a Lean transcription of kubectl's "
+                   "rollout_status.go reports the rollout done. Tie: the real Compute (and the real kubectl StatusViewers) run on per-kind grids "
+                   "(absent/0..3 per count, every relevant condition/reason/phase/strategy value) plus random large values, all outputs compared."),
+    "level_note": ("Trusted: Lean kernel (+propext, Quot.sound, Classical.choice), the hand-written model and rollout predicates, the Go harness "
+                   "and driver. The proof is about the model; the code is covered as far as the correspondence run explores."),
+    "technique": "Lean 4 proof (unfolding + linear integer arithmetic, induction over condition lists) + differential correspondence against the real Go code and kubectl",
+    "domains": ["status-c08", "kubectl"],
+    "rule": ("status-c08: per-kind grids (Deployment 5^5 counts x 3 deadlines x 6 Progressing x 3 Available x 2 groups = 337500 cells, "
+             "StatefulSet 187500, DaemonSet 45000, ReplicaSet 18750, Pod 4800, Job/PVC/Service/CRD/always/custom complete) — quick: 30000 / "
+             "30000 / 12000 / 9375 cells sampled by a bijection of the index space, the small grids complete; thorough: every cell; one in 12 "
+             "again under a random generic context; plus 1500 (quick) / 20000 (thorough) objects per kind with random large or negative counts. "
+             "kubectl: the three workload grids with generation fields mostly present and equal, real StatusViewer next to Compute. "
+             "Non-trivial: built-in kind and no generic signal (status-c08) / the hypotheses of the kubectl comparison hold (kubectl)."),
+    "exhaustive_quick": False,
+    "exhaustive_thorough": True,
+    "explanation": ("Theorems: <kind>_current_iff / <kind>_failed_iff per kind, c08_holds (the executable C08 predicate holds of the model for "
+                    "every input), never_current_while_lagging, current_implies_kubectl_done_{deployment,sts,ds}. Tie: real Compute on the "
+                    "grids, real kubectl viewers against the Lean transcription; the C08 predicate (rollout predicate vs status) is evaluated "
+                    "on the implementation's outputs."),
+    "assumptions": _KS_ASSUME + ["kubectl comparison: generation >= 1 and partition >= 0 (enforced by the API server), counts within int32"],
+    "trusted_base": _KS_TRUSTED + ["transcription of k8s.io/kubectl@v0.31.1 pkg/polymorphichelpers/rollout_status.go in Spec/Status.lean (tied by the kubectl domain)"],
+}
+
+PROPS["C09"] = {
+    "level_text": ("Machine-checked Lean 4 theorems: the model of status.Compute is a total function into result-or-error (no partiality), and "
+                   "every result has one of the four statuses with exactly one true Reconciling condition when InProgress, exactly one true "
+                   "Stalled condition when Failed and no conditions when Current/Terminating — for every JSON tree. Never-panics, input-unchanged "
+                   "and equal-answers are facts about the Go code: they are observed by running the real Compute under recover(), twice, with a "
+                   "deep comparison of the input before/after, on well-typed grids and on a kind-directed malformed stream (wrong-typed values at "
+                   "exactly the paths each rule reads), and compared with the model (which implements checked assertions)."),
+    "level_note": ("Trusted: Lean kernel (+propext, Quot.sound, Classical.choice), the hand-written model, the Go harness and driver. Totality "
+                   "and purity of the model are by construction; for the code they hold as far as the correspondence run explores."),
+    "technique": "Lean 4 proof (case analysis over every rule) + differential correspondence with panic capture against the real Go code",
+    "domains": ["status", "status-malformed"],
+    "rule": ("status: half of the C08 grids plus 40000 of the C07 generic-signal combinations (thorough: all); status-malformed: 30000 (quick) / "
+             "400000 (thorough) objects of all kinds, a third of them Pods steered into the Running-not-Ready branch, with 1-3 subtrees at the "
+             "paths the kind's rule reads replaced by null, strings, numbers, floats, booleans, empty/non-empty lists and maps. "
+             "Every case is non-trivial (distinct canonical input)."),
+    "exhaustive_quick": False,
+    "explanation": ("Theorems: compute_total, result_shape (+ the strong form conditions = [c]), status_four_values, pure (structural). Tie: real "
+                    "Compute under recover(), called twice, input deep-compared; outputs compared with the model; the C09 predicate (no panic, "
+                    "unchanged, pure, status in the four values, condition shape) is evaluated on the implementation's outputs."),
+    "assumptions": _KS_ASSUME,
+    "trusted_base": _KS_TRUSTED,
+}
